@@ -53,10 +53,12 @@ META = {
         "the branch facts dominating the single entry store are exactly Sphinx's skip conditions (match, ':', duplicate "
         "py:module; truthiness of a regex group that cannot be empty is vacuous; any other condition on a field is reported); "
         "the store runs at most once per line and has Sphinx's duplicate semantics (overwrite: subscript assignment/update, "
-        "not setdefault). "
+        "not setdefault); a table that is looked up again only when a remembered key changes must be keyed on everything "
+        "the lookup depends on (domain and objtype). "
         "R3: kind inference (DOMAIN / OBJTYPE / NAME / DOMAIN:OBJTYPE) over every key used on the MyST-format and "
         "Sphinx-format dictionaries in _load_v1, _load_v2, from_sphinx, to_sphinx and the helpers that receive the table. "
-        "R4 (InventoryFileReader): every store to the read buffer / a local line buffer is an append, a prefix drop after the "
+        "R4 (InventoryFileReader): every store to the read buffer / a local line buffer (also one known under two names: a "
+        "carry and the work copy `data = pending + chunk`) is an append, a prefix drop after the "
         "prefix up to the separator was consumed, or a reset after the whole buffer was consumed (or the decompressor's "
         "unconsumed_tail); consumed bytes are discarded before the next append/use; a local line buffer is empty or consumed "
         "when the generator ends; decode() is applied only to bytes ending at an entry or stream boundary (prefix up to an "
@@ -801,6 +803,37 @@ def r1_regex_equals_sphinx(corpus: Corpus, rep: Report, tier: str):
 # R2 rule chain of the v2 loader
 
 
+def _cached_alias(e):
+    """``items`` in ``if KEY != current: items = <table chain>; current = KEY`` (a table looked up again only
+    when a remembered key changes): (chain expr, the if statement, KEY expr, name of the remembered key)."""
+    if not (isinstance(e, ast.Name) and hasattr(e, "_parent")):
+        return None
+    f = enclosing_function(e)
+    if f is None or e.id in f.params:
+        return None
+    defs = [d for d in f.local_nodes() if isinstance(d, (ast.Assign, ast.AnnAssign)) and d.value is not None and any(_is_name(t_, e.id) for t_ in (d.targets if isinstance(d, ast.Assign) else [d.target]))]
+    stores = [n for n in f.local_nodes() if isinstance(n, ast.Name) and n.id == e.id and isinstance(n.ctx, ast.Store)]
+    chains = [d for d in defs if isinstance(d.value, (ast.Call, ast.Subscript)) and "objects" in unparse(d.value)]
+    inits = [d for d in defs if d not in chains]
+    if len(chains) != 1 or len(stores) != len(defs) or any(not (isinstance(i_.value, ast.Dict) and not i_.value.keys) and not _is_none(i_.value) for i_ in inits):
+        return None
+    d = chains[0]
+    p = parent(d)
+    if not (isinstance(p, ast.If) and d in p.body and not p.orelse):
+        return None
+    t, neg = p.test, False
+    while isinstance(t, ast.UnaryOp) and isinstance(t.op, ast.Not):
+        t, neg = t.operand, not neg
+    if not (isinstance(t, ast.Compare) and len(t.ops) == 1 and isinstance(t.ops[0], (ast.NotEq, ast.Eq, ast.Is, ast.IsNot))):
+        return None
+    if isinstance(t.ops[0], (ast.Eq, ast.Is)) != neg:
+        return None  # the refresh must happen when the key DIFFERS from the remembered one
+    for key, cache in ((t.left, t.comparators[0]), (t.comparators[0], t.left)):
+        if isinstance(cache, ast.Name) and any(isinstance(x, ast.Assign) and len(x.targets) == 1 and _is_name(x.targets[0], cache.id) and unparse(x.value) == unparse(key) for x in p.body):
+            return d.value, p, key, cache.id
+    return None
+
+
 def _access_chain(e, _depth: int = 0):
     """``a[k1].setdefault(k2, {})[k3]`` -> (a, [k1, k2, k3]) (subscripts and setdefault/get calls mixed)."""
     keys = []
@@ -822,6 +855,11 @@ def _access_chain(e, _depth: int = 0):
             others = [n for n in f.local_nodes() if isinstance(n, ast.Name) and n.id == e.id and isinstance(n.ctx, ast.Store)]
             if len(defs) == 1 and len(others) == 1:
                 b2, k2 = _access_chain(defs[0].value, _depth + 1)
+                if k2:
+                    return b2, k2 + keys
+            ca = _cached_alias(e)
+            if ca is not None:  # whether the remembered key covers the chain's variables is judged by R2
+                b2, k2 = _access_chain(ca[0], _depth + 1)
                 if k2:
                     return b2, k2 + keys
     return e, keys
@@ -1014,6 +1052,27 @@ def _caught_and_skipped(fi: FunctionInfo, st) -> bool:
     return False
 
 
+def _partition_sep_checked(fi: FunctionInfo, c: ast.Call) -> bool:
+    """``d, sep, o = x.partition(":")`` followed (same block) by ``if not sep: continue`` before d/o are used."""
+    a = parent(c)
+    if not (isinstance(a, ast.Assign) and isinstance(a.targets[0], ast.Tuple) and len(a.targets[0].elts) == 3 and all(isinstance(e, ast.Name) for e in a.targets[0].elts)):
+        return False
+    d_, sep_, o_ = (e.id for e in a.targets[0].elts)
+    blk = None
+    p_ = parent(a)
+    for fld in ("body", "orelse", "finalbody"):
+        if a in getattr(p_, fld, []):
+            blk = getattr(p_, fld)
+    if blk is None:
+        return False
+    for st in blk[blk.index(a) + 1 :]:
+        if isinstance(st, ast.If) and not st.orelse and st.body and isinstance(st.body[-1], (ast.Continue, ast.Return)) and any(_is_name(t, sep_) and not pol for t, pol in facts(st.test, True)):
+            return True
+        if any(isinstance(n, ast.Name) and n.id in (d_, o_) for n in ast.walk(st)):
+            return False
+    return False
+
+
 def _check_type_splits(rep: Report, rid: str, fi: FunctionInfo, typevar: str, scope, alias=lambda e: False) -> int:
     cfg = get_cfg(fi)
     n = 0
@@ -1040,6 +1099,8 @@ def _check_type_splits(rep: Report, rid: str, fi: FunctionInfo, typevar: str, sc
         k = f"{fi.fq}|{typevar}.split|dominated by the ':' test"
         if ok:
             rep.ok(rid, k, site)
+        elif c.func.attr in ("partition", "rpartition") and _partition_sep_checked(fi, c):
+            rep.ok(rid, k, site, "no ':' -> the separator element is empty, which is tested and the entry skipped")
         elif c.func.attr in ("split", "rsplit") and _caught_and_skipped(fi, st) and isinstance(parent(c), ast.Assign) and isinstance(parent(c).targets[0], ast.Tuple) and len(parent(c).targets[0].elts) == 2:
             rep.ok(rid, k, site, "no ':' -> the two-name unpacking raises ValueError, which is caught and the entry skipped")
         else:
@@ -1230,6 +1291,33 @@ def r2_rule_chain(corpus: Corpus, rep: Report, tier: str):
     item = _item_dict(fi, item_e)
     if item is None:
         raise Unsupported(f"{fi.fq}: the stored item is not a dict literal")
+    # (a0) a table that is looked up again only when a remembered key changes: the key must determine the table
+    if isinstance(store, ast.Assign) and isinstance(store.targets[0], ast.Subscript):
+        b_ = store.targets[0].value
+        while isinstance(b_, ast.Subscript):
+            b_ = b_.value
+        ca = _cached_alias(b_)
+        if ca is not None:
+            chain_, if_, key_, cache_ = ca
+            varying = {n.id for st_ in scope for n in ast.walk(st_) if isinstance(n, ast.Name) and isinstance(n.ctx, ast.Store)}
+            determined = {n.id for n in ast.walk(key_) if isinstance(n, ast.Name)}
+            changed = True
+            while changed:
+                changed = False
+                for st_ in scope:
+                    if isinstance(st_, ast.Assign) and not any(st_ is x for x in ast.walk(if_)):
+                        srcs = {n.id for n in ast.walk(st_.value) if isinstance(n, ast.Name) and n.id in varying}
+                        tg = {n.id for t_ in st_.targets for n in ast.walk(t_) if isinstance(n, ast.Name)}
+                        if srcs and srcs <= determined and not tg <= determined and len([x for x in scope if isinstance(x, ast.Assign) and any(isinstance(n, ast.Name) and n.id in tg and isinstance(n.ctx, ast.Store) for t_ in x.targets for n in ast.walk(t_))]) == 1:
+                            determined |= tg
+                            changed = True
+            needs = {n.id for n in ast.walk(chain_) if isinstance(n, ast.Name) and n.id in varying}
+            missing = sorted(needs - determined)
+            k = f"{fi.fq}|cached table `{unparse(b_)}`|looked up again whenever its keys change"
+            if missing:
+                rep.violation("C18.R2", k, mod.site(if_), f"`{unparse(b_)}` = `{short(chain_, 60)}` is only looked up again when `{unparse(key_)}` differs from the remembered `{cache_}`, but the table also depends on {', '.join(missing)}: an entry whose {unparse(key_)} equals the previous entry's while its {', '.join(missing)} differs is stored in the previous entry's table")
+            else:
+                rep.ok("C18.R2", k, mod.site(if_), f"remembered key `{unparse(key_)}` determines {sorted(needs)}")
     # (a) the ':' test precedes the split (v2 loader and from_sphinx)
     type_group = ROLES.index("type") + 1
 
@@ -1241,7 +1329,20 @@ def r2_rule_chain(corpus: Corpus, rep: Report, tier: str):
     if _check_type_splits(rep, "C18.R2", fi, R["type"], scope, type_alias) == 0:
         raise Unsupported(f"{fi.fq}: `{R['type']}` is never split into domain and objtype")
     fs = A.from_sphinx
-    fs_type = _items_key_var(fs)
+    try:
+        fs_type = _items_key_var(fs)
+    except Unsupported:
+        # the iteration over the Sphinx keys moved into a generator helper: for d, t, data in _groups(inv)
+        moved = None
+        for call, t_ in _callees(corpus, fs):
+            if isinstance(parent(call), ast.For) and parent(call).iter is call and t_.is_generator():
+                try:
+                    moved = (t_, _items_key_var(t_))
+                except Unsupported:
+                    pass
+        if moved is None:
+            raise
+        fs, fs_type = moved
     if _check_type_splits(rep, "C18.R2", fs, fs_type, None) == 0:
         raise Unsupported(f"{fs.fq}: `{fs_type}` is never split into domain and objtype")
     # (b) duplicate py:module: first entry wins
@@ -1475,8 +1576,10 @@ def _is_container(k) -> bool:
 
 
 class Kinds:
-    def __init__(self, fi: FunctionInfo, seeds: dict[str, object]):
+    def __init__(self, fi: FunctionInfo, seeds: dict[str, object], corpus: Corpus | None = None, depth: int = 0):
         self.fi = fi
+        self.corpus = corpus
+        self.depth = depth
         self.env: dict[str, object] = dict(seeds)
         self.checks: list[tuple[ast.AST, ast.AST, str, object]] = []  # (construct, key expr, expected, got)
         for _ in range(6):
@@ -1527,7 +1630,26 @@ class Kinds:
             return self._keykind(k[1])
         if isinstance(k, tuple) and k and k[0] == "VALUES":
             return self._down(k[1])
+        if isinstance(k, tuple) and k and k[0] == "GEN":
+            return k[1]
         return None
+
+    def _generator_kind(self, call: ast.Call):
+        """("GEN", kind of what a private generator helper yields), parameter kinds taken from this call."""
+        if self.corpus is None or self.depth >= 2:
+            return None
+        t = _callee(self.corpus, self.fi, call)
+        if t is None or t.is_lambda or not t.is_generator() or t.fq == self.fi.fq:
+            return None
+        seeds = _kind_seeds(self.corpus, t, {})
+        for p_ in t.params:
+            a = _param_arg(t, call, p_)
+            k_ = self.kind(a) if a is not None else None
+            if k_ is not None and k_ != POISON and k_ != CONFLICT:
+                seeds[p_] = k_
+        sub = Kinds(t, seeds, self.corpus, self.depth + 1)
+        ys = {sub.kind(n.value) if not isinstance(n.value, ast.Tuple) else ("TUPLE",) + tuple(sub.kind(e) for e in n.value.elts) for n in t.local_nodes() if isinstance(n, ast.Yield) and n.value is not None}
+        return ("GEN", ys.pop()) if len(ys) == 1 else None
 
     @staticmethod
     def _keykind(c):
@@ -1566,6 +1688,10 @@ class Kinds:
                 fx = dict(zip(fields, e.args))
                 fx.update({kw.arg: kw.value for kw in e.keywords if kw.arg})
                 return ("RECV", tuple(sorted((f_, self.kind(x_)) for f_, x_ in fx.items() if isinstance(self.kind(x_), str))))
+        if isinstance(e, ast.Call) and isinstance(e.func, ast.Name):
+            g = self._generator_kind(e)
+            if g is not None:
+                return g
         if isinstance(e, ast.Attribute):
             kv = self.kind(e.value)
             if isinstance(kv, tuple) and kv and kv[0] == "RECV":
@@ -1911,7 +2037,7 @@ def r3_key_kinds(corpus: Corpus, rep: Report, tier: str):
             continue
         done.add(fi.fq)
         rep.saw_function(fi.fq)
-        kinds = Kinds(fi, _kind_seeds(corpus, fi, extra))
+        kinds = Kinds(fi, _kind_seeds(corpus, fi, extra), corpus)
         delegated = False
         # private helpers that receive the table or keys: parameter kinds come from the call site
         for call, t in _callees(corpus, fi):
@@ -1972,8 +2098,20 @@ def _own_exprs(st) -> list:
     return [st]
 
 
+class BufName(str):
+    """A buffer known under several local names: the carry (``pending``) and the work copy it is extended into
+    (``data = pending + chunk``). Prints as the carry's name."""
+
+    names: frozenset = frozenset()
+
+    def __new__(cls, carry: str, names):
+        o = super().__new__(cls, carry)
+        o.names = frozenset(names) | {carry}
+        return o
+
+
 def _is_b(n, b: str) -> bool:
-    return isinstance(n, (ast.Name, ast.Attribute)) and unparse(n) == b
+    return isinstance(n, (ast.Name, ast.Attribute)) and unparse(n) in getattr(b, "names", (b,))
 
 
 def _empty_bytes(e) -> bool:
@@ -2005,6 +2143,8 @@ class StmtBuf:
                 self.store = "append"
             elif val is None:
                 pass
+            elif isinstance(st, ast.Assign) and _is_b(val, b):
+                skip.add(val)  # pending = data: the same bytes under the buffer's other name, nothing is stored or consumed
             elif _empty_bytes(val) or (isinstance(val, ast.Attribute) and val.attr == "unconsumed_tail"):
                 self.store = "reset"  # b"" or what the decompressor has not processed yet of the consumed buffer
             elif isinstance(val, ast.Subscript) and _is_b(val.value, b) and isinstance(val.slice, ast.Slice) and val.slice.lower is not None and val.slice.upper is None and val.slice.step is None:
@@ -2025,7 +2165,7 @@ class StmtBuf:
                 if isinstance(p, ast.Attribute) and p.value is n:
                     call = parent(p)
                     if isinstance(call, ast.Call) and call.func is p and p.attr in PROBE_METHODS:
-                        if p.attr == "find" and len(call.args) in (1, 2) and _const(call.args[0]) is not _NOCONST:
+                        if p.attr in ("find", "rfind") and len(call.args) in (1, 2) and _const(call.args[0]) is not _NOCONST:
                             self.finds.append(_const(call.args[0]))
                         continue
                     if isinstance(call, ast.Call) and call.func is p and p.attr == "decode":
@@ -2155,8 +2295,13 @@ class ReaderModel:
                 if isinstance(st, ast.Assign) and len(st.targets) == 1 and isinstance(st.targets[0], ast.Name) and isinstance(st.value, ast.Constant) and isinstance(st.value.value, bytes):
                     names.add(st.targets[0].id)
             for nm in sorted(names):
-                self._scan(m, nm)
-                self.locals.append((m, nm))
+                alias = set()
+                for st in m.local_nodes():  # data = pending + chunk: the work copy of the carry
+                    if isinstance(st, ast.Assign) and len(st.targets) == 1 and isinstance(st.targets[0], ast.Name) and isinstance(st.value, ast.BinOp) and isinstance(st.value.op, ast.Add) and _is_name(st.value.left, nm) and st.targets[0].id != nm:
+                        alias.add(st.targets[0].id)
+                b_ = BufName(nm, alias) if alias else nm
+                self._scan(m, b_)
+                self.locals.append((m, b_))
 
     def _scan(self, m: FunctionInfo, b: str) -> dict:
         cfg = get_cfg(m)
@@ -2329,7 +2474,7 @@ def _judge_buffer(rep: Report, M: ReaderModel, m: FunctionInfo, b: str) -> None:
             for d in inf:
                 if isinstance(d, ast.Assign) and any(_is_name(t, pos) for t in d.targets):
                     v = d.value
-                    if not (isinstance(v, ast.Call) and isinstance(v.func, ast.Attribute) and v.func.attr == "find" and _is_b(v.func.value, b) and len(v.args) in (1, 2) and _cbytes(v.args[0]) is not None):
+                    if not (isinstance(v, ast.Call) and isinstance(v.func, ast.Attribute) and v.func.attr in ("find", "rfind") and _is_b(v.func.value, b) and len(v.args) in (1, 2) and _cbytes(v.args[0]) is not None):
                         raise Unsupported(f"{m.fq}: `{pos}` is not only assigned from {b}.find(<bytes>)")
                     seps.add(_cbytes(v.args[0]))
                     defs.append(d)
@@ -2429,7 +2574,8 @@ def _bytes_provenance(e, fi: FunctionInfo, M: "ReaderModel", gens: set[str], at:
     if depth > 5:
         raise Unsupported(f"{fi.fq}: provenance of decoded bytes too deep")
     cfg = get_cfg(fi)
-    local_bufs = {nm for m, nm in M.locals if m.fq == fi.fq}
+    local_bufs = {x for m, nm in M.locals if m.fq == fi.fq for x in getattr(nm, "names", (nm,))}
+    owner = {x: nm for m, nm in M.locals if m.fq == fi.fq for x in getattr(nm, "names", (nm,))}
     in_reader = any(m.fq == fi.fq for m in M.methods)
     # prefix up to a separator
     if isinstance(e, ast.Subscript) and isinstance(e.slice, ast.Slice) and e.slice.lower is None and e.slice.step is None and isinstance(e.slice.upper, ast.Name):
@@ -2440,7 +2586,7 @@ def _bytes_provenance(e, fi: FunctionInfo, M: "ReaderModel", gens: set[str], at:
             for d in fi.local_nodes():
                 if isinstance(d, ast.Assign) and any(_is_name(t, pos) for t in d.targets):
                     v = d.value
-                    if isinstance(v, ast.Call) and isinstance(v.func, ast.Attribute) and v.func.attr == "find" and unparse(v.func.value) == b and len(v.args) in (1, 2) and _cbytes(v.args[0]) is not None:
+                    if isinstance(v, ast.Call) and isinstance(v.func, ast.Attribute) and v.func.attr in ("find", "rfind") and unparse(v.func.value) == b and len(v.args) in (1, 2) and _cbytes(v.args[0]) is not None:
                         seps.append(_cbytes(v.args[0]))
                     else:
                         raise Unsupported(f"{fi.fq}: `{pos}` is not only assigned from {b}.find(<bytes>)")
@@ -2455,7 +2601,7 @@ def _bytes_provenance(e, fi: FunctionInfo, M: "ReaderModel", gens: set[str], at:
         return "chunk", f"{M.B} holds whatever the reads delivered so far and {M.E} is not known to be set"
     if isinstance(e, ast.Name):
         if e.id in local_bufs:
-            inf = M.info[(fi.fq, e.id)]
+            inf = M.info[(fi.fq, owner[e.id])]
             later = [a for a, i in inf.items() if i.store == "append" and a in cfg.reachable_from(at)]
             if not later:
                 return "ok", f"`{e.id}` after the last chunk was appended"
@@ -3326,6 +3472,16 @@ def mutants(corpus: Corpus):
         else:
             out.append(Mutant(mid, rid, rel, splice(src, node, text), expect=expect, canary=canary))
 
+    def add2(mid, rid, edits, expect="", canary=False):
+        """several node replacements in one mutant (applied back to front)."""
+        if any(n is None for n, _ in edits):
+            out.append((mid, "construct not found on this tree"))
+            return
+        text = src
+        for node, new in sorted(edits, key=lambda e: (e[0].lineno, e[0].col_offset), reverse=True):
+            text = splice(text, node, new)
+        out.append(Mutant(mid, rid, rel, text, expect=expect, canary=canary))
+
     # --- R1
     pat = arg_or_kw(L.call, 0, "pattern")
     if isinstance(pat, ast.Constant) and "(-?\\d+)" in pat.value:
@@ -3395,6 +3551,23 @@ def mutants(corpus: Corpus):
         out.append(("c18-v1-store-via-setdefault-first-wins", "v1 store is not a subscript assignment"))
     if tx_if is not None:
         add("c18-load-v2-text-equal-to-name-dropped", "C18.R2", tx_if.test, f"not {R['text']} or {R['text']} in (\"-\", {R['name']})", "display name sentinel")
+    # class "cache keyed on fewer inputs than the cached value depends on"
+    sd = find_node(v2, lambda n: isinstance(n, ast.Expr) and isinstance(n.value, ast.Call) and isinstance(n.value.func, ast.Attribute) and n.value.func.attr == "setdefault" and n in L.body_stmts and _access_chain(n.value)[1][:1] and _cstr(_access_chain(n.value)[1][0]) == "objects")
+    pre_loop = None
+    for b_i, b_st in enumerate(v2.node.body):
+        if b_st is L.loop and b_i > 0:
+            pre_loop = v2.node.body[b_i - 1]
+    if isinstance(store, ast.Assign) and sd is not None and pre_loop is not None and len(_access_chain(sd.value)[1]) == 3:
+        kk = _access_chain(sd.value)[1]
+        i0, i1 = " " * pre_loop.col_offset, " " * sd.col_offset
+        for tag, key in (("objtype", unparse(kk[2])), ("domain", unparse(kk[1]))):
+            add2(f"c18-table-cache-keyed-on-{tag}-only", "C18.R2", [
+                (pre_loop, f"{ast.get_source_segment(src, pre_loop)}\n{i0}current = None\n{i0}items = {{}}"),
+                (sd, f"if {key} != current:\n{i1}    items = {ast.get_source_segment(src, sd.value)}\n{i1}    current = {key}"),
+                (store.targets[0], f"items[{unparse(store.targets[0].slice)}]"),
+            ], "looked up again whenever its keys change")
+    else:
+        out.append(("c18-table-cache-keyed-on-objtype-only", "v2 loader has no setdefault statement + subscript store"))
     # --- R3
     if isinstance(store, ast.Assign):
         keys = _objects_store(store)
@@ -3428,16 +3601,6 @@ def mutants(corpus: Corpus):
     rcl = rd.methods.get("read_compressed_lines")
     rcc = rd.methods.get("read_compressed_chunks")
     rl = rd.methods.get("readline")
-    def add2(mid, rid, edits, expect="", canary=False):
-        """several node replacements in one mutant (applied back to front)."""
-        if any(n is None for n, _ in edits):
-            out.append((mid, "construct not found on this tree"))
-            return
-        text = src
-        for node, new in sorted(edits, key=lambda e: (e[0].lineno, e[0].col_offset), reverse=True):
-            text = splice(text, node, new)
-        out.append(Mutant(mid, rid, rel, text, expect=expect, canary=canary))
-
     if rcl is not None:
         ind = " " * rcl.node.body[0].col_offset
         gens = _chunk_generators(_reader(corpus))
@@ -3458,6 +3621,14 @@ def mutants(corpus: Corpus):
             # class "decode applied to an arbitrary byte chunk"
             add2("c18-decode-per-chunk-then-join", "C18.R4", [(join.value, f'"".join(c.decode() for c in {g})'), (dec, var)], "decode|c")
             add2("c18-decode-and-split-per-chunk", "C18.R4", [(join, f"for chunk in {g}:\n{ind}    yield from chunk.decode().splitlines()"), (ylines, "pass")], "decode|chunk")
+            # class "carry-over cut from the wrong operand / at the wrong place"
+            per_chunk = (
+                f'pending = b""\n{ind}for chunk in {g}:\n{ind}    data = pending + chunk\n{ind}    pos = data.rfind(b"\\n")\n'
+                f"{ind}    if pos == -1:\n{ind}        pending = data\n{ind}        continue\n"
+                f"{ind}    yield from data[:pos].decode().splitlines()\n{ind}    pending = %s\n{ind}yield from pending.decode().splitlines()"
+            )
+            add2("c18-per-chunk-lines-carry-cut-from-chunk", "C18.R4", [(join, per_chunk % "chunk[pos + 1 :]"), (ylines, "pass")], "replaces pending")
+            add2("c18-per-chunk-lines-carry-keeps-separator", "C18.R4", [(join, per_chunk % "data[pos:]"), (ylines, "pass")], "pending = data[pos:]")
             add2("c18-line-buffer-decoded-while-filling", "C18.R4", [(join, f'{var} = b""\n{ind}for chunk in {g}:\n{ind}    {var} += chunk\n{ind}    if len({var}) > _BUFSIZE:\n{ind}        yield from {var}.decode().splitlines()\n{ind}        {var} = b""')], "still being appended")
         else:
             out.append(("c18-f21-tail-flush-reverted", "read_compressed_lines no longer joins and decodes the chunks once"))
